@@ -78,6 +78,7 @@ def judge_scripts(scripts, devs, custom="<<>>", setup=None, roundtrip=False):
     lexed = [lexref.lex(s) for s in scripts]
     outs_all, stats = tlc_judge([l[0] for l in lexed], devs, custom)
     p = I.new_parser()
+    p2 = I.new_parser()      # a more recently created parser: what it parses must not reach the judged (older) one
     recs = []
     refs = []
     stats["refs"] = refs
@@ -93,6 +94,8 @@ def judge_scripts(scripts, devs, custom="<<>>", setup=None, roundtrip=False):
             # non-termination is established (reported below): do not spend the watchdog limit on every further input
             cnt["skipped_after_hangs"] = cnt.get("skipped_after_hangs", 0) + 1
             continue
+        if len(data) % 5 == 2:
+            p2.parse(pengine.POISON)
         o = I.run_parse(p, data, rt=roundtrip)
         cnt["parses"] += 1
         ref = [q for q in outs if not q[0]][0]
